@@ -225,7 +225,7 @@ Lemma mat_inf_norm_R (m : mat R) :
 Proof.
   intros Hwf. unfold mat_inf_norm.
   assert (E : mat_map RO UAbs m = Some (mkmat (nr m) (nc m) (map Rabs (dat m)))).
-  { unfold mat_map, mat_of, matrix_new. destruct Hwf as (Hr & Hc & Hl).
+  { unfold mat_map, mat_of, matrix_new, new_ok. destruct Hwf as (Hr & Hc & Hl).
     rewrite (proj2 (Nat.ltb_lt _ _) Hr), (proj2 (Nat.ltb_lt _ _) Hc).
     rewrite vmap_map, map_length. rewrite (proj2 (Nat.eqb_eq _ _)) by lia. reflexivity. }
   rewrite E. cbn [bind nr nc dat].
